@@ -32,6 +32,7 @@ type scenario struct {
 
 type frameInfo struct {
 	id, start, end, plen int
+	pad                  int
 	kind                 string
 	dbLen                int
 }
@@ -119,18 +120,61 @@ func dbName(id int) string { return fmt.Sprintf("db%d", id) }
 
 const rotateAt = 640
 
+type locker interface {
+	VerifLock()
+	VerifUnlock()
+}
+
+// scribble overwrites a buffer the driver handed to the writer: after Append* has returned the
+// caller owns the slice again (the ingest path passes recycled request-body buffers).
+func scribble(b []byte) {
+	for i := range b {
+		b[i] = 0xAA
+	}
+}
+
 // buildLayout writes the layout with the real writer. A boundary after a non-empty file is a
 // real size-triggered rotation (the last frame of the file is padded past MaxSizeBytes); a
 // boundary after an empty file is a writer restart (NewWriter always opens a fresh file).
-func buildLayout(dir string, layout [][]string) error {
+// While a writer session appends, the writer mutex is held through the overlay shim (when
+// present) and every payload buffer is overwritten right after its Append call returned.
+func buildLayout(dir string, layout [][]string) ([]int, error) {
+	var pads []int
 	newWriter := func() (*wal.Writer, error) {
 		return wal.NewWriter(&wal.WriterConfig{WALDir: dir, SyncMode: wal.SyncModeAsync, MaxSizeBytes: rotateAt,
 			MaxAge: time.Hour, BufferSize: 64, Logger: logger})
 	}
 	w, err := newWriter()
 	if err != nil {
-		return err
+		return nil, err
 	}
+	locked := false
+	lock := func() {
+		if l, ok := interface{}(w).(locker); ok && !locked {
+			l.VerifLock()
+			locked = true
+		}
+	}
+	unlock := func() {
+		if l, ok := interface{}(w).(locker); ok && locked {
+			l.VerifUnlock()
+			locked = false
+		}
+	}
+	waitFiles := func(n int) error {
+		deadline := time.Now().Add(20 * time.Second)
+		for {
+			files, _ := filepath.Glob(filepath.Join(dir, "*.wal"))
+			if len(files) >= n {
+				return nil
+			}
+			if time.Now().After(deadline) {
+				return fmt.Errorf("rotation to %d files did not happen", n)
+			}
+			time.Sleep(200 * time.Microsecond)
+		}
+	}
+	lock()
 	id := 0
 	for fi, file := range layout {
 		size := wal.WALFileHeaderSize
@@ -145,6 +189,7 @@ func buildLayout(dir string, layout [][]string) error {
 					pad = rotateAt - size - base
 				}
 			}
+			pads = append(pads, pad)
 			raw, recs := payloadFor(kind, id, pad)
 			switch kind {
 			case "raw":
@@ -157,38 +202,71 @@ func buildLayout(dir string, layout [][]string) error {
 				err = fmt.Errorf("unknown kind %s", kind)
 			}
 			if err != nil {
-				return err
+				unlock()
+				return nil, err
 			}
+			scribble(raw)
 			size += frameSize(kind, id, pad)
 		}
 		if fi < len(layout)-1 && len(file) == 0 {
 			// empty file: restart the writer
+			unlock()
 			if err := w.Close(); err != nil {
-				return err
+				return nil, err
 			}
 			time.Sleep(2 * time.Millisecond)
 			if w, err = newWriter(); err != nil {
-				return err
+				return nil, err
 			}
-		} else if fi < len(layout)-1 {
-			// wait until the async writer loop has rotated
-			deadline := time.Now().Add(5 * time.Second)
-			for {
-				files, _ := filepath.Glob(filepath.Join(dir, "*.wal"))
-				if len(files) >= fi+2 {
-					break
-				}
-				if time.Now().After(deadline) {
-					return fmt.Errorf("rotation %d did not happen", fi+1)
-				}
-				time.Sleep(200 * time.Microsecond)
-			}
+			lock()
 		}
 	}
-	return w.Close()
+	unlock()
+	if err := waitFilesAfterClose(w, dir, len(layout), waitFiles); err != nil {
+		return nil, err
+	}
+	return pads, nil
 }
 
-func loadFiles(dir string, layout [][]string) ([]fileInfo, error) {
+// the async writer loop rotates while it drains; Close drains everything, after which the
+// number of files must equal the layout's
+func waitFilesAfterClose(w *wal.Writer, dir string, n int, wait func(int) error) error {
+	if err := w.Close(); err != nil {
+		return err
+	}
+	return wait(n)
+}
+
+// expectedFor is the driver's own, reader-independent decoding of what it appended.
+func expectedFor(kind string, id, pad int) decoded {
+	raw, recs := payloadFor(kind, id, pad)
+	if kind == "row" {
+		b, err := msgpack.Marshal(recs)
+		if err != nil {
+			panic(err)
+		}
+		var out []map[string]interface{}
+		if err := msgpack.Unmarshal(b, &out); err != nil {
+			panic(err)
+		}
+		return decoded{Records: out}
+	}
+	var m map[string]interface{}
+	if err := msgpack.Unmarshal(raw, &m); err != nil {
+		panic(err)
+	}
+	cols := map[string][]interface{}{}
+	for k, v := range m["columns"].(map[string]interface{}) {
+		cols[k] = v.([]interface{})
+	}
+	db := ""
+	if kind == "env" {
+		db = dbName(id)
+	}
+	return decoded{Columnar: &wal.ColumnarEntry{Database: db, Measurement: m["m"].(string), Columns: cols}}
+}
+
+func loadFiles(dir string, layout [][]string, pads []int) ([]fileInfo, error) {
 	names, _ := filepath.Glob(filepath.Join(dir, "*.wal"))
 	sort.Strings(names) // names embed the creation time (ns), so lexical order = creation order
 	if len(names) != len(layout) {
@@ -213,6 +291,10 @@ func loadFiles(dir string, layout [][]string) ([]fileInfo, error) {
 			}
 			plen := int(binary.BigEndian.Uint32(data[off : off+4]))
 			f := frameInfo{id: id, start: off, end: off + wal.WALEntryHeaderSize + plen, plen: plen, kind: kind}
+			f.pad = pads[id-1]
+			if f.end-f.start != frameSize(kind, id, f.pad) {
+				return nil, fmt.Errorf("frame %d: size on disk %d, expected %d", id, f.end-f.start, frameSize(kind, id, f.pad))
+			}
 			if kind == "env" {
 				f.dbLen = len(dbName(id))
 			}
@@ -433,11 +515,12 @@ func main() {
 	for si, sc := range scs {
 		res.FaultKeysTL += len(sc.Allowed)
 		dir := filepath.Join(tmp, fmt.Sprintf("l%d", si))
-		if err := buildLayout(dir, sc.Layout); err != nil {
+		pads, err := buildLayout(dir, sc.Layout)
+		if err != nil {
 			res.Infra = fmt.Sprintf("build layout %v: %v", sc.Layout, err)
 			break
 		}
-		files, err := loadFiles(dir, sc.Layout)
+		files, err := loadFiles(dir, sc.Layout, pads)
 		if err != nil {
 			res.Infra = fmt.Sprintf("load layout %v: %v", sc.Layout, err)
 			break
@@ -447,11 +530,18 @@ func main() {
 		for _, f := range files {
 			paths = append(paths, f.path)
 		}
-		ref, _ := readDir(paths)
-		total := 0
-		for _, f := range sc.Layout {
-			total += len(f)
+		// reference = the driver's own decoding of what it appended (independent of wal.Reader/Writer)
+		var ref []decoded
+		for _, f := range files {
+			for _, fr := range f.frames {
+				if fr.pad < 0 {
+					res.Infra = fmt.Sprintf("frame %d smaller than its unpadded size", fr.id)
+				}
+				ref = append(ref, expectedFor(fr.kind, fr.id, fr.pad))
+			}
 		}
+		pristine, _ := readDir(paths)
+		total := len(ref)
 		judge := func(w witness, got []decoded, allowed [][]int, complete []int, alteredFrame int) {
 			ids, altered := identify(ref, got)
 			w.Out = ids
@@ -490,9 +580,19 @@ func main() {
 		// no fault
 		{
 			w := witness{Layout: sc.Layout, File: 0, Offset: -1, Mutation: "none", FaultKey: "none|0|0|none", Via: "ReadAll"}
-			if len(ref) != total {
-				w.Out, _ = identify(ref, ref)
+			ids, altered := identify(ref, pristine)
+			w.Out = ids
+			if altered > 0 {
+				addV("intact-file-yields-entry-that-was-not-appended", w)
+			} else if len(pristine) != total {
 				addV("intact-file-entries-missing", w)
+			} else {
+				for i, id := range ids {
+					if id != i+1 {
+						addV("intact-file-entries-out-of-order", w)
+						break
+					}
+				}
 			}
 			exercised[fmt.Sprintf("%d/none|0|0|none", si)] = true
 		}
